@@ -16,6 +16,7 @@ import pandas as pd
 import vlib
 from vlib import qlit, ostr, flit, fme
 
+EXTRA_TARGETS = ['Units/UnitsSpecQ.vo', 'Lib/Show.vo']
 MANIFEST = dict(
     text="Machine-checked (Coq 8.16) factor theorems over R for the model GENERATED from converter_unit.py/converter_mode.py on every run: "
          "every ordered pair of the 10 pressure, 27 loading (x19 material contexts) and 19 material representations, every real value and "
@@ -277,7 +278,7 @@ def classify(c, outcome, val=None):
 
 def run(rep, tier, seed):
     from pygaps.units import converter_mode as cm
-    proofs_ok = vlib.standard_proof_phase(rep, 'C01', extra_targets=['Units/UnitsSpecQ.vo', 'Lib/Show.vo'])
+    proofs_ok = vlib.standard_proof_phase(rep, 'C01', extra_targets=EXTRA_TARGETS)
     explore(rep, tier, seed)
     if (rep.broken and not rep.violations) and tier != 'thorough':
         # an obligation or the correspondence broke and the quick-size exploration found no failing input: search deeper
